@@ -22,7 +22,10 @@ package parse
 //@   flag record parseNumber
 //@   requires numberType != nil
 //@   requires isNumericKind(kind(numberType))
+//@   requires wf_package_initialised: durationT() == typeOfDyn(tid("time.Duration"))
 //@   ensures C15_result_is_pointer_to_kind: err == nil ==> valid(v) && kind(vtype(v)) == Ptr && canInterface(v)
+//@   ensures C15_result_points_to_a_value_of_the_requested_kind: err == nil ==> !visnil(v) && elem(vtype(v)) != nil && kind(elem(vtype(v))) == kind(numberType)
+//@   ensures C15_an_error_returns_no_value: err != nil ==> !valid(v)
 //@   ensures C15_signed_exact: err == nil && isSignedKind(kind(numberType)) && numberType != durationT() ==>
 //@        isIntLit(strVal) && cell(vptr(v), "int") == intval(strVal) && kind(elem(vtype(v))) == kind(numberType)
 //@        && sLo(kindBits(kind(numberType))) <= intval(strVal) && intval(strVal) <= sHi(kindBits(kind(numberType)))
@@ -102,3 +105,51 @@ package parse
 //@   loop 0:
 //@     invariant scanLeft >= 0
 //@     decreases scanLeft, b2i(tok != -1)
+
+// ---------------------------------------------------------------------------------------------
+// parse.String (C16, C11): every supported leaf type - including user-defined types of a supported kind, and
+// slices and maps whose elements, keys and values are of such types - is parsed without a reflect panic.
+// ---------------------------------------------------------------------------------------------
+//@ func parse.StringSlice(s) (out, err)
+//@   flag unproved
+//@ func parse.StringStringSliceMap(s) (out, err)
+//@   flag unproved
+//@ func parse.StringSet(s) (out, err)
+//@   flag unproved
+//@ func parse.checkKindsSupported(kinds) (err)
+//@   flag unproved
+//@   ensures err == nil ==> (forall k int :: {kinds[k]} 0 <= k && k < len(kinds) ==> isBasicKind(kinds[k]) && kinds[k] != Uintptr)
+//@ func parse.Map(s, mapType) (m, err)
+//@   props C16
+//@   safety C16
+//@   requires mapType != nil && kind(mapType) == Map
+//@   requires C16_supported_key_and_value_kinds: isBasicKind(kind(keyT(mapType))) && kind(keyT(mapType)) != Uintptr && isBasicKind(kind(elem(mapType))) && kind(elem(mapType)) != Uintptr
+//@   flag noframe
+//@   modifies rh, rec_parseString, rec_parseNumber
+
+//@ macro isLeafScalarKind(k int) bool = isBasicKind(k) && k != Uintptr
+//@ func parse.String(str, t) (v, err)
+//@   props C16 C11
+//@   flag record parseString
+//@   safety C16
+//@   requires t != nil
+//@   requires C16_supported_element_kinds: kind(t) == Slice ==> isLeafScalarKind(kind(elem(t)))
+//@   modifies rh, rec_parseNumber
+//@   loop 0:
+//@     invariant valid(castSlice) && vtype(castSlice) == t && kind(t) == Slice
+//@   ensures C16_scalar_result_is_a_pointer_to_a_value_of_that_kind: err == nil && isLeafScalarKind(kind(t)) ==>
+//@        valid(v) && kind(vtype(v)) == Ptr && !visnil(v) && elem(vtype(v)) != nil && kind(elem(vtype(v))) == kind(t)
+//@   ensures C16_slice_results_have_the_requested_type: err == nil && kind(t) == Slice ==> valid(v) && vtype(v) == t
+//@   ensures err != nil ==> !valid(v)
+
+// the callback parse.Map hands to splitMap: free variables keyType, m, valType (captured by reference)
+//@ macro capType(p Ref) RType = cell(p, "RType")
+//@ macro capVal(p Ref) Val = cell(p, "Val")
+//@ func parse.Map$1(keyType, m, valType, newKeyStr, newValStr) (err)
+//@   props C16
+//@   safety C16
+//@   requires keyType != nil && m != nil && valType != nil && keyType != valType
+//@   requires valid(capVal(m)) && !canAddr(capVal(m)) && kind(vtype(capVal(m))) == Map && !visnil(capVal(m)) && capType(keyType) == keyT(vtype(capVal(m))) && capType(valType) == elem(vtype(capVal(m)))
+//@   requires C16_supported_key_and_value_kinds: capType(keyType) != nil && capType(valType) != nil && isBasicKind(kind(capType(keyType))) && kind(capType(keyType)) != Uintptr
+//@        && isBasicKind(kind(capType(valType))) && kind(capType(valType)) != Uintptr
+//@   modifies rh, rec_parseString, rec_parseNumber
